@@ -215,7 +215,10 @@ def thresholds(repo, rep):
                 role[nm] = "dfp_max"
     for n in ast.walk(src):
         if isinstance(n, ast.Compare) and len(n.ops) == 1 and isinstance(n.left, ast.Name) and isinstance(n.comparators[0], ast.Name):
-            atoms.add((role.get(n.left.id, n.left.id), type(n.ops[0]).__name__, role.get(n.comparators[0].id, n.comparators[0].id)))
+            l_, o_, r_ = role.get(n.left.id, n.left.id), type(n.ops[0]).__name__, role.get(n.comparators[0].id, n.comparators[0].id)
+            if r_ in ("ddpm", "dfp") and l_ not in ("ddpm", "dfp"):       # orientation: the measured change on the left
+                l_, r_, o_ = r_, l_, {"Lt": "Gt", "LtE": "GtE", "Gt": "Lt", "GtE": "LtE"}.get(o_, o_)
+            atoms.add((l_, o_, r_))
     need = {("ddpm", "Lt", "ddpm_max"), ("dfp", "Lt", "dfp_max"), ("dfp", "Gt", "dfp_min")}
     missing = [a for a in need if a not in atoms]
     if missing:
